@@ -8,6 +8,7 @@ mod dump;
 mod round3;
 mod round4;
 mod round5;
+mod round6;
 mod alloc;
 mod cases;
 mod exec;
@@ -128,6 +129,7 @@ pub fn oracles_for(prop: &str, c: &Case, impl_result: &str) -> Vec<Verdict> {
         ("C16", Case::Ring(d, r, ps)) => v.push(oracle_c16(&Ctor::PolygonRings(*d, vec![(*r, ps.clone())]))),
         ("C18", Case::Size(c)) => v.push(oracle_c18(c)),
         ("C18", Case::Write { ctors, .. }) => v.push(round3::oracle_record_lengths(ctors)),
+        ("C18", Case::Read { shp, .. }) => v.push(round6::oracle_size_of_read_shapes(shp)),
         ("C19", Case::Read { target, shp, .. }) if (target == "generic" || target == "Point") && shp.len() >= 140 => {
             // the second record's type field holds an invalid code: that code is reported
             let code = i32::from_le_bytes([shp[136], shp[137], shp[138], shp[139]]);
@@ -311,7 +313,15 @@ fn cases_for(prop: &str, tier: &str, seed: u64, out: &mut Out) {
                 }
                 let id = out.oracle_only_id();
                 out.verdict(&id, "scenario big-index-routes 1500", round5::oracle_big_index_routes(1500));
+                let id = out.oracle_only_id();
+                out.verdict(&id, "scenario path-uppercase", round6::oracle_path_uppercase());
                 for (n_old, n_new) in [(6usize, 2usize), (3, 3), (2, 5), (9, 1)] {
+                    let id = out.oracle_only_id();
+                    out.verdict(&id, &format!("scenario reused-destinations {} {}", n_old, n_new), round4::oracle_reused_destinations(n_old, n_new));
+                }
+            }
+            if prop == "C01" {
+                for (n_old, n_new) in [(5usize, 2usize), (3, 3)] {
                     let id = out.oracle_only_id();
                     out.verdict(&id, &format!("scenario reused-destinations {} {}", n_old, n_new), round4::oracle_reused_destinations(n_old, n_new));
                 }
@@ -350,6 +360,14 @@ fn cases_for(prop: &str, tier: &str, seed: u64, out: &mut Out) {
             if prop == "C13" {
                 let id = out.oracle_only_id();
                 out.verdict(&id, "scenario gap-faults", round5::oracle_gap_faults());
+                let id = out.oracle_only_id();
+                out.verdict(&id, "scenario path-truncated", round6::oracle_path_truncated());
+            }
+            if prop == "C02" {
+                for chunk in [1usize, 3, 7, 4096] {
+                    let id = out.oracle_only_id();
+                    out.verdict(&id, &format!("scenario chunked-destination {}", chunk), round6::oracle_chunked_destination(chunk));
+                }
             }
             if prop == "C02" {
                 for n in [1usize, 3, 20] {
@@ -378,6 +396,12 @@ fn cases_for(prop: &str, tier: &str, seed: u64, out: &mut Out) {
             let id = out.oracle_only_id();
             out.verdict(&id, "scenario big-index-routes 1500", round5::oracle_big_index_routes(1500));
             let id = out.oracle_only_id();
+            out.verdict(&id, "scenario path-foreign-layout", round6::oracle_path_foreign_layout());
+            for n in [6usize, 3] {
+                let id = out.oracle_only_id();
+                out.verdict(&id, &format!("scenario iter-adaptors {}", n), round5::oracle_iter_adaptors(n));
+            }
+            let id = out.oracle_only_id();
             out.verdict(&id, "scenario typed-nth-failure", round3::oracle_typed_nth_failure());
 
             // a typed iteration over a file with a null record in the middle (fillers, reverse order)
@@ -400,6 +424,8 @@ fn cases_for(prop: &str, tier: &str, seed: u64, out: &mut Out) {
                 out.verdict(&id, "scenario typed-nth-failure", round3::oracle_typed_nth_failure());
                 let id = out.oracle_only_id();
                 out.verdict(&id, "scenario read-vs-readas", round4::oracle_read_vs_readas());
+                let id = out.oracle_only_id();
+                out.verdict(&id, "scenario path-foreign-layout", round6::oracle_path_foreign_layout());
             }
             // records without their optional M block: typed and generic reads must still agree
             for (fam, d) in ALL13.iter().filter(|(f, d)| *d != Dim::Xy && *f != "point") {
@@ -555,6 +581,10 @@ fn cases_for(prop: &str, tier: &str, seed: u64, out: &mut Out) {
                     let id = out.oracle_only_id();
                     out.verdict(&id, &format!("scenario collect-peak {}", words), round4::oracle_collect_peak(words));
                 }
+                for announced in [1_000_000u32, u32::MAX / 64] {
+                    let id = out.oracle_only_id();
+                    out.verdict(&id, &format!("scenario dbf-count-peak {}", announced), extra::oracle_scenario("C17", &["dbf-count-peak".to_string(), announced.to_string()]).unwrap());
+                }
             }
         }
         "C09" | "C10" => {
@@ -583,6 +613,10 @@ fn cases_for(prop: &str, tier: &str, seed: u64, out: &mut Out) {
         "C15" => {
             extra::cases_rhist(tier, &mut rng, &mut stats, out);
             extra::cases_pairs_c15(tier, &mut stats, out);
+            for n in [6usize, 2] {
+                let id = out.oracle_only_id();
+                out.verdict(&id, &format!("scenario iter-adaptors {}", n), round5::oracle_iter_adaptors(n));
+            }
             let id = out.oracle_only_id();
             out.verdict(&id, "scenario typed-nth-failure", round3::oracle_typed_nth_failure());
             {
@@ -715,6 +749,26 @@ fn cases_for(prop: &str, tier: &str, seed: u64, out: &mut Out) {
                 let id = out.oracle_only_id();
                 out.verdict(&id, "scenario size-after-failed-write", round4::oracle_size_after_failed_write());
             }
+            // shapes that were READ, from records with and without their optional M block
+            for (fam, d) in ALL13.iter().filter(|(f, _)| *f != "point") {
+                let c = {
+                    let mut g = Gen { rng: &mut rng, stats: &mut stats, max_parts: 3, max_points: 5 };
+                    g.ctor(fam, *d, Flavor::Exact, false)
+                };
+                let a = build(&c).unwrap();
+                let npts = sv_of_any(&a).parts().iter().map(|p| p.len()).sum::<usize>();
+                let (shp, _) = write_files(false, std::slice::from_ref(&a));
+                let mut files = vec![shp.clone()];
+                if *d != Dim::Xy {
+                    files.push(round5::strip_record_tail(&shp, 16 + 8 * npts));
+                }
+                for f in files {
+                    stats.hit("size.read-shape");
+                    let id = out.oracle_only_id();
+                    let line = show_case(&Case::Read { target: "generic".into(), shp: f.clone(), shx: None });
+                    out.verdict(&id, &line, round6::oracle_size_of_read_shapes(&f));
+                }
+            }
             // files of several shapes of different sizes: every record header and index entry
             // announces the length of its own record
             for i in 0..(if tier == "thorough" { 400 } else { 39 }) {
@@ -803,6 +857,10 @@ fn cases_for(prop: &str, tier: &str, seed: u64, out: &mut Out) {
             }
         }
         "C03" => {
+            {
+                let id = out.oracle_only_id();
+                out.verdict(&id, "scenario path-trailing", round6::oracle_path_trailing());
+            }
             // one part longer than any block a reader could reasonably buffer (independent encoding)
             for code in [3i32, 13, 23, 8, 18, 28] {
                 for n in [1025usize, 1500, 2049, 3000] {
